@@ -230,6 +230,10 @@ def run(repo, tier, seed, oracles, modes, nsets, params_list=None, kinds=None, w
                          oracles=oracles, kinds=kinds or pl.KINDS, weights=weights, odd_refs=odd_refs))
         if overrides is not None:
             jobs[-1].update(overrides(i) or {})
+    # witnesses of defects that were found late and fixed (known_findings.json: fixed) stay in every tier of the properties they concerned
+    for rj in REGRESSION_JOBS:
+        if set(rj['for']) & set(oracles):
+            jobs.append(dict(rj['job'], oracles=oracles))
     res = pmap(run_job, jobs, repo, timeout=3000)
     viol, known = {}, {}
     for r in res:
@@ -246,6 +250,13 @@ def run(repo, tier, seed, oracles, modes, nsets, params_list=None, kinds=None, w
                            "records checked + runs; non-trivial = records whose HitEnum contains a D or an I"),
                   samples, list(viol.values())[:6] + list(known.values())[:4], exhaustive=False,
                   bounds=f"{nsets} generated sets x modes {modes if not callable(modes) else 'varied'}")
+
+
+REGRESSION_JOBS = [
+    # fixed f7d663a: a joined record without any pair (both records with an empty first segment)
+    dict(**{'for': ('C01', 'C07', 'C18')}, job=dict(seed=1178, modes=['best', 'joined'], params={'d': 500, 'ms': 500}, kinds=pl.KINDS, weights=[1, 2, 1, 2, 2, 6],
+                                                  odd_refs=True, style=0)),
+]
 
 
 def replay(repo, rp):
